@@ -274,6 +274,15 @@ def lib_call(case, fn, mech, **flags):
 # ----------------------------------------------------------------------
 # make_model_image cases
 # ----------------------------------------------------------------------
+def draw_magnitude(ax, p_plain=0.5):
+    """GENERIC AXIS (i): overall scale of every value-like input.  About half of the cases stay at 1."""
+    if ax.random() < p_plain:
+        return 1.0
+    if ax.random() < 0.5:
+        return float(2.0 ** int(ax.integers(-60, 41)))
+    return float(10.0 ** int(ax.integers(-20, 11)))
+
+
 def _gen_mmi(case):
     import astropy.units as u
     from astropy.table import QTable, Table
@@ -282,6 +291,20 @@ def _gen_mmi(case):
     model, x_name, y_name, flux_name, others, has_bbox = make_model(rng, kind)
     big = rng.random() < 0.15
     shape = (int(rng.integers(5, 61 if big else 26)), int(rng.integers(5, 61 if big else 26)))
+    # generic axes are drawn from their own stream (seeded from the case rng) independently of the class
+    ax = np.random.default_rng(int(rng.integers(0, 2 ** 62)))
+    axes = {}
+    mag = draw_magnitude(ax)
+    if mag != 1.0:
+        axes['magnitude_not_1'] = 1
+        if mag <= 1e-9:
+            axes['magnitude_below_1e-9'] = 1
+        if mag >= 1e6:
+            axes['magnitude_above_1e6'] = 1
+    if ax.random() < 0.15:          # axis (iv): strongly elongated / 1xN / Nx1 images
+        a, b = int(ax.choice([1, 1, 2, 3])), int(ax.integers(5, 61))
+        shape = (a, b) if ax.random() < 0.5 else (b, a)
+        axes['shape_elongated'] = 1
     n = int(rng.choice([0, 1, 2, 3, 4, 5, 6, 8, 12], p=[.04, .1, .16, .2, .15, .12, .1, .08, .05]))
 
     # discretisation
@@ -303,6 +326,12 @@ def _gen_mmi(case):
         # the model itself carries the unit (flux not in the table)
         setattr(model, flux_name, getattr(model, flux_name).value * unit)
         default_unitful = True
+
+    amp_params = [flux_name] + (['amplitude_1'] if kind in ('gauss+gauss', 'prf+const') else [])
+    if mag != 1.0:
+        for pn in amp_params:
+            par = getattr(model, pn)
+            setattr(model, pn, par.value * mag * (par.unit if par.unit is not None else 1))
 
     # window specification
     wmode = rng.choice(['kw_scalar', 'kw_pair', 'col1d', 'col2d', 'bbox'], p=[.3, .2, .15, .15, .2])
@@ -379,6 +408,39 @@ def _gen_mmi(case):
         bkg = rng.uniform(-2, 5, n)
         if rng.random() < 0.3 and n:
             bkg[rng.random(n) < 0.5] = 0.0
+        if ax.random() < 0.08:
+            bkg[:] = 0.0                      # axis (vi): an all-zero local_bkg column
+            axes['degenerate_all_zero_local_bkg'] = 1
+        elif ax.random() < 0.25:
+            bkg = bkg * float(10.0 ** int(ax.integers(-12, 1)))     # background much fainter than the sources
+            axes['local_bkg_much_fainter_than_flux'] = 1
+    # axis (i): one overall magnitude for fluxes, amplitudes and backgrounds
+    for pn in amp_params:
+        if pn in pvals:
+            pvals[pn] = pvals[pn] * mag
+    if bkg is not None:
+        bkg = bkg * mag
+    # axis (iii): dtype / byte order of the value columns (values are first rounded to the representation so
+    # that the reference sees exactly the numbers the table holds)
+    col_dtype = {}
+    for pn in list(pvals):
+        r_ = ax.random()
+        if r_ < 0.08 and pn not in (x_name, y_name):
+            with np.errstate(all='ignore'):
+                v32 = pvals[pn].astype('f4')
+            if np.all(np.isfinite(v32)) and np.all((v32 != 0) | (pvals[pn] == 0)):
+                pvals[pn] = v32.astype(float)
+                col_dtype[pn] = 'f4'
+                axes['layout_float32_column'] = 1
+        elif r_ < 0.16:
+            col_dtype[pn] = '>f8'
+            axes['layout_bigendian_column'] = 1
+    bkg_unit = unit
+    if bkg is not None and unit is not None and ax.random() < 0.2 and unit in (u.Jy, u.mJy):
+        # axis (ii): local_bkg in an equivalent, non-identical unit (documentation: 'must have the same flux units';
+        # the correct converted image or the documented ValueError are both accepted)
+        bkg_unit = u.mJy if unit == u.Jy else u.Jy
+        axes['callform_local_bkg_equivalent_unit'] = 1
 
     # ---- build the table (column naming independent of the reference rows)
     remap = cls == 'remap' or rng.random() < 0.15
@@ -394,10 +456,12 @@ def _gen_mmi(case):
     for p in order:
         v = pvals[p]
         col = v
+        if p in col_dtype:
+            col = v.astype(col_dtype[p])
         if int_pos and p in (x_name, y_name):
             col = v.astype(int)
         if p in unit_params:
-            col = v * unit
+            col = col * unit
         how = 'own'
         if remap:
             how = str(rng.choice(['own', 'alias', 'alias+decoy']))
@@ -419,7 +483,12 @@ def _gen_mmi(case):
     if col_shape is not None:
         t['model_shape'] = col_shape
     if bkg is not None:
-        t['local_bkg'] = bkg * unit if unit is not None else bkg
+        if unit is not None:
+            t['local_bkg'] = (bkg * unit).to(bkg_unit) if bkg_unit != unit else bkg * unit
+            if bkg_unit != unit:
+                bkg = t['local_bkg'].value.copy()       # the numbers the table holds, in bkg_unit
+        else:
+            t['local_bkg'] = bkg
     if rng.random() < 0.3:
         t.meta['note'] = 'c18'
 
@@ -437,7 +506,7 @@ def _gen_mmi(case):
             ms = (kw_shape, kw_shape) if np.isscalar(kw_shape) else tuple(kw_shape)
         else:
             ms = None
-        b = 0.0 if bkg is None else (float(bkg[i]) * unit if unit is not None else float(bkg[i]))
+        b = 0.0 if bkg is None else (float(bkg[i]) * bkg_unit if unit is not None else float(bkg[i]))
         rows.append(dict(params=params, model_shape=ms, local_bkg=b))
 
     kw = dict(x_name=x_name, y_name=y_name, discretize_method=method)
@@ -449,11 +518,30 @@ def _gen_mmi(case):
         kw['model_shape'] = kw_shape
     if bbox_factor is not None:
         kw['bbox_factor'] = bbox_factor
+    # axis (ii): equivalent call forms of the arguments (all accepted by the unchanged library)
+    if ax.random() < 0.3:
+        if 'model_shape' in kw:
+            if np.isscalar(kw_shape):
+                kw['model_shape'] = [np.int64(kw_shape), np.array(kw_shape), np.int32(kw_shape)][int(ax.integers(0, 3))]
+            else:
+                kw['model_shape'] = [list(kw_shape), np.array(kw_shape), (np.int32(kw_shape[0]), np.int64(kw_shape[1]))][
+                    int(ax.integers(0, 3))]
+            axes['callform_model_shape'] = 1
+        if 'discretize_oversample' in kw and ax.random() < 0.5:
+            kw['discretize_oversample'] = [np.int64(oversample), float(oversample)][int(ax.integers(0, 2))]
+            axes['callform_oversample'] = 1
+        if bbox_factor is not None and float(bbox_factor).is_integer() and ax.random() < 0.5:
+            kw['bbox_factor'] = int(bbox_factor)
+            axes['callform_bbox_factor_int'] = 1
+        if ax.random() < 0.5:
+            shape = (np.int64(shape[0]), np.int32(shape[1]))
+            axes['callform_shape_numpy_ints'] = 1
     if pmap:
         kw['params_map'] = pmap
     info = dict(kind=kind, shape=shape, n=n, method=method, oversample=oversample, unit=unit,
                 wmode=str(wmode), bbox_factor=bbox_factor, remap=bool(pmap), ndecoy=ndecoy,
-                default_unitful=default_unitful, table=tcls.__name__, bkg=bkg is not None)
+                default_unitful=default_unitful, table=tcls.__name__, bkg=bkg is not None, mag=mag, axes=axes,
+                bkg_unit_differs=bool(unit is not None and bkg is not None and bkg_unit != unit))
     return model, t, rows, kw, info
 
 
